@@ -240,5 +240,7 @@ func init() {
 		})
 		// leg Bm (c03bm.go): the Boyer-Moore prefix against its model and a naive search
 		c03RegisterBm(c, 1)
+		// leg L (c04loops.go): landmark chain / literal after the leading loop (a fifth of C04's cases)
+		c04RegisterLoops(c, 5)
 	})
 }
